@@ -25,6 +25,7 @@ def plan(tier, seed):
     specs = [{"kind": "sign", "count": n // shards} for _ in range(shards)]
     for T in ([4] if tier == "quick" else [2, 4, 8, 16]):
         specs.append({"kind": "threads", "threads": T, "count": 30 if tier == "quick" else 250})
+    specs.append({"kind": "crowd", "count": 3 if tier == "quick" else 40})
     return specs
 
 
@@ -394,7 +395,59 @@ def run_threads(spec, rec, lib):
                     break
 
 
+def run_crowd(spec, rec, lib):
+    """many signers: an envelope signed by 65..140 keys (in some order, and in the reverse order) is the same envelope, carries
+    exactly one entry per signer, and verifies for every threshold up to their number and for none above it"""
+    from ..engines.envelope import _fast_sign
+
+    rng = random.Random(spec["seed"])
+    C, S, A = lib.common, lib.signing, lib.authentication
+    for i in range(spec["count"]):
+        n = rng.choice([65, 66, 70, 100, 129, 140])
+        ks = [gkeys.key(300 + j) for j in rng.sample(range(160), n)]
+        payload = jsonvals.rand_payload(rng)
+        try:
+            data = canonjson.canon(payload)
+        except canonjson.Unsupported:
+            continue
+        envs = []
+        for order in (ks, list(reversed(ks))):
+            e = S.wrap_as_signable(payload)
+            # a few foreign entries first, so that the signers' entries come late in insertion order
+            if rng.random() < 0.5:
+                for j in range(rng.choice([1, 64, 70])):
+                    e["signatures"]["%064x" % (j + 1)] = {"signature": "%0128x" % rng.getrandbits(512)}
+            foreign = dict(e["signatures"])
+            for k in order:
+                S.sign_signable(e, C.PrivateKey.from_bytes(k.seed))
+            envs.append((e, foreign))
+        case = {"kind": "sign_crowd", "signers": n}
+        rec.case("crowd|%d|%d" % (n, i))
+        rec.count("crowd_signings", 2 * n)
+        want = {k.hex: {"signature": _fast_sign(k.seed, data).hex()} for k in ks}
+        for e, foreign in envs:
+            got = {k: v for k, v in e["signatures"].items() if k not in foreign}
+            if got != want:
+                rec.violation("signer-binding/sign_signable/many-signers/entries-differ",
+                              "after %d keys signed, the envelope does not carry exactly one RFC 8032 entry per signer (%d entries)" % (n, len(got)), case)
+                break
+            auth = [k.hex for k in ks]
+            rng.shuffle(auth)
+            for t in sorted({1, 2, 63, 64, 65, n - 1, n}):
+                o = boundary.call(lib, A.verify_signable, e, auth, t)
+                rec.count("crowd_threshold_checks")
+                if not o.accepted:
+                    rec.violation(boundary.mechanism("sign-then-verify", "verify_signable[%d signers]" % (64 if n > 64 else n), "accept", o) + "/threshold-up-to-signers",
+                                  "envelope signed by %d authorized keys rejected for threshold %d" % (n, t), dict(case, threshold=t))
+                    break
+            o = boundary.call(lib, A.verify_signable, e, auth, n + 1)
+            if o.accepted:
+                rec.violation("sign-then-verify/verify_signable/accepts-threshold-above-signers", "threshold %d accepted with %d signers" % (n + 1, n), case)
+
+
 def run_shard(spec, rec, lib):
+    if spec.get("kind") == "crowd":
+        return run_crowd(spec, rec, lib)
     if spec.get("kind") == "threads":
         return run_threads(spec, rec, lib)
     rng = random.Random(spec["seed"])
